@@ -10,7 +10,10 @@
 //! in-place patching (`AssetPatch::patch_cai_store`, file based) the patched file must equal the rewrite.
 //!
 //! Mutants caught (tools/mutant_run.sh A <diff> C08 quick):
-//!   C08-png-cai-length.diff  (PNG Cai length without the 12 header/CRC bytes)  -> VIOLATION
+//!   C08-png-cai-length.diff  (PNG Cai length without the 4 CRC bytes)  -> VIOLATION "diff-outside-region replace fmt=Png", "diff-outside-region fresh-B fmt=Png"
+//!
+//! Finding on the unchanged tree: "patch-error fmt=Gif IoError": GifIO::patch_cai_store opens the file read-only and then writes (EBADF), so
+//! in-place patching of GIF never works.
 
 use kit::embed::{self, kind_of_err, load, locations, remove, save};
 use kit::walk;
